@@ -7,6 +7,9 @@ CONSTANTS
   MaxT = 2
   Phases <- core_t_Phases
   ShapeSet <- core_t_Shapes
+  Signers = {"s1", "s2"}
+  Recipients = {"r1", "r2"}
+  Policies <- core_t_Policies
   CfgName = "core_t"
 INIT Init
 NEXT Next
